@@ -11,6 +11,27 @@
 //! * [`faults`]    single faults F1–F4: enumeration, application, site keys, evaluation
 //! * [`catalogue`] small circuits covering every table and mode, type-erased as [`case::Case`]
 
+//!
+//! ## Typical use from a check (C06 / C12 / C16)
+//! ```ignore
+//! use vpe3::{Backend, BbD4, Fixture, Inputs, Deviation, Change, Port, Pred};
+//! let mut b = BbD4::new_builder();             // Poseidon2 D4 W16 + recompose(+coeff) enabled
+//! /* ... build the circuit with the real CircuitBuilder / CircuitChallenger ... */
+//! let fx = Fixture::<BbD4>::new("name", b.build()?, Inputs { public, private, siblings: vec![] },
+//!                               TablePacking::default())?;   // validates: runner, forge == runner,
+//!                                                             // honest proof accepted, predicate holds
+//! // a deviation with forward propagation (hint output := other witness, public outputs adapted)
+//! let dev = Deviation { slots: vec![(wid, Change::Set(v))], adapt_publics: true, ..Deviation::none() };
+//! let ex = fx.forge(&dev)?;                     // ex.traces, ex.witness (final slot values), ex.inputs
+//! let verdict = fx.accept(&ex.traces, &[]);     // real prove_all_tables + verify_all_tables
+//! let pred = fx.predicate(&ex.inputs, &ex.traces);            // C04's reference predicate
+//! // every single fault of classes F1-F4 with site keys:
+//! for f in fx.enumerate(&[0]) { let o = fx.evaluate(&f); if o.violation() { /* o.key() */ } }
+//! // proof object for metadata alterations (C16):
+//! let proof = vpe3::prove_with::<BbD4>(&fx.prepared, &fx.packing, &ex.traces, &[])?;   // BatchStarkProof<BabyBearConfig>
+//! let v = vpe3::verify_proof::<BbD4>(&fx.packing, &proof);
+//! ```
+
 pub mod backend;
 pub mod case;
 pub mod catalogue;
